@@ -56,7 +56,17 @@ pub enum Ev {
     Burst,
     /// a client datagram of exactly `len` bytes
     ClientLen(usize),
+    /// rewrite the ips file with the given content and send SIGHUP (applied by the next housekeeping pass)
+    Reload(&'static str),
+    /// a subscriber of the given topic with a one-line channel that never reads
+    FrozenSubscriber(&'static str),
+    /// what the priority listener task does when a keyframe hint arrives: publish on priority.window
+    /// (from a task of its own, never from the loop)
+    PublishWindow,
 }
+
+/// universe of uplink addresses (127.0.0.2 ...) a reload scenario may list
+pub const MAX_ADDR: usize = 5;
 
 pub struct LoopModel {
     pub n: usize,
@@ -64,6 +74,8 @@ pub struct LoopModel {
     pub classic: bool,
     pub events: Vec<Ev>,
     pub name: String,
+    /// SIGHUP is process-wide: scenarios that send it run one at a time
+    pub single_thread: bool,
 }
 
 impl LoopModel {
@@ -89,16 +101,34 @@ impl LoopModel {
                 events.extend([Ev::Fault(1, Mode::BlackHole), Ev::Repair(1), Ev::BindFails(1), Ev::BindOk(1), Ev::Fault(1, Mode::Flap)]);
             }
             // long outages
-            _ => {
+            3 => {
                 events = vec![Ev::SecIdle, Ev::Sec, Ev::Fault(1, Mode::BlackHole), Ev::Repair(1), Ev::Fault(1, Mode::Flap)];
+            }
+            // reloads by SIGHUP (process-wide: explored on one thread)
+            4 => {
+                events.extend([
+                    Ev::Reload("127.0.0.2\n127.0.0.3\n"),
+                    Ev::Reload("127.0.0.2\n"),
+                    Ev::Reload("127.0.0.3\n127.0.0.4\n"),
+                    Ev::Reload("127.0.0.2\n127.0.0.3\n127.0.0.4\n"),
+                    Ev::Reload("127.0.0.5\n127.0.0.4\n"),
+                    Ev::Reload(""),
+                    Ev::Reload("garbage\n\n"),
+                    Ev::Reload("127.0.0.3\nnonsense\n127.0.0.2\n127.0.0.3\n"),
+                    Ev::Fault(0, Mode::BlackHole),
+                ]);
+            }
+            // a control client that never reads its subscription
+            _ => {
+                events.extend([Ev::FrozenSubscriber("stats"), Ev::FrozenSubscriber("priority.window"), Ev::PublishWindow, Ev::Fault(1, Mode::BlackHole), Ev::Repair(1)]);
             }
         }
         let name = format!(
             "real loop links={n} timeout={timeout} mode={} alphabet={}",
             if classic { "classic" } else { "enhanced" },
-            ["streaming", "faults", "bind-faults", "long-outage"][level.min(3) as usize]
+            ["streaming", "faults", "bind-faults", "long-outage", "reloads", "frozen-subscribers"][level.min(5) as usize]
         );
-        Self { n, timeout, classic, events, name }
+        Self { n, timeout, classic, events, name, single_thread: level == 4 }
     }
     pub fn event_name(&self, e: usize) -> String {
         format!("{:?}", self.events[e])
@@ -133,6 +163,8 @@ struct LinkMon {
     connected_prev: bool,
     /// wire arrival order of client sequence numbers (first copies)
     carried: Vec<u32>,
+    /// the address is in the sender's link set (as far as the applied ips lists say)
+    present: bool,
 }
 
 struct Run<'a> {
@@ -156,16 +188,48 @@ struct Run<'a> {
     relay_tag: u32,
     passes: u64,
     cov: Cov,
+    /// a reload was signalled and is applied by the next housekeeping pass: the link set it must produce
+    /// (None inside: the file must be refused)
+    pending_reload: Option<Option<Vec<usize>>>,
+    /// the pass that applied a reload has run; the statistics of the *next* pass must show this link set
+    /// (the loop updates the statistics before it applies the queued change)
+    reload_to_verify: Option<(bool, Vec<usize>, Vec<usize>)>,
+    /// receivers of frozen subscribers (kept so the channels stay open and full)
+    frozen: Vec<tokio::sync::mpsc::Receiver<String>>,
 }
 
 #[derive(Default, Clone, Debug)]
 pub struct Cov {
+    pub reloads_applied: u64,
+    pub reloads_refused: u64,
+    pub frozen_subscribers: u64,
     pub socket_recreations: u64,
     pub rejoins: u64,
     pub forwarded: u64,
     pub relayed: u64,
     pub keepalives: u64,
     pub flaps: u64,
+}
+
+fn fresh_link(now: u64) -> LinkMon {
+    LinkMon {
+        mode: Mode::Ok,
+        rec_known: false,
+        src_port: None,
+        last_live_delivery: now,
+        last_delivery: now,
+        last_socket_change: now,
+        socket_changes: 0,
+        established: false,
+        bind_fail: false,
+        had_bind_fault: false,
+        ok_since: Some(now),
+        ka_misses: 0,
+        live_prev: false,
+        connected_prev: false,
+        carried: Vec::new(),
+        present: false,
+    }
 }
 
 fn handshake_or_keepalive(b: &[u8]) -> bool {
@@ -186,7 +250,7 @@ impl<'a> Run<'a> {
         let now = self.now();
         for (l, b) in &o.wire {
             let l = *l;
-            if l >= self.m.n {
+            if l >= MAX_ADDR || !self.links[l].present {
                 return Err(Fail::new("real:datagram-from-unknown-source", format!("a datagram arrived from source 127.0.0.{} at +{now} ms", l + 2)));
             }
             // socket identity
@@ -226,7 +290,7 @@ impl<'a> Run<'a> {
             let e = self.copies.entry(b.clone()).or_default();
             let first_on_link = !e.iter().any(|(x, _)| *x == l);
             e.push((l, now));
-            if e.len() > 1 + self.m.n {
+            if e.len() > 1 + MAX_ADDR {
                 return Err(Fail::new("real:too-many-copies", format!("a client datagram was transmitted {} times", e.len())));
             }
             if first_on_link && b.len() >= 12 && b[0] & 0x80 == 0 {
@@ -332,20 +396,87 @@ impl<'a> Run<'a> {
     /// The clauses judged once per housekeeping pass, then the receiver's answers.
     async fn after_housekeeping(&mut self, o: &StepOut) -> Result<(), Fail> {
         let now = self.now();
-        let n = self.m.n;
+        let n = MAX_ADDR;
         let timeout = self.m.timeout;
         let snap = self.rig.stats.get();
         // stats rows by link
         let mut row: Vec<Option<srtla_send::stats::LinkStats>> = vec![None; n];
+        let mut listed: Vec<usize> = Vec::new();
         for ls in snap.links.iter() {
             if let std::net::IpAddr::V4(v) = ls.ip {
                 let i = v.octets()[3] as usize;
                 if i >= 2 && i - 2 < n {
                     row[i - 2] = Some(ls.clone());
+                    listed.push(i - 2);
                 }
             }
         }
+        // ---- the statistics of the pass after the one that applied a reload show the new link set
+        if let Some((accepted, want_set, before)) = self.reload_to_verify.take() {
+            let mut a = listed.clone();
+            a.sort_unstable();
+            if a != want_set {
+                return Err(Fail::new(
+                    if accepted { "real:reload-link-set-differs-from-list" } else { "real:refused-reload-changed-the-link-set" },
+                    format!(
+                        "one pass after the reload was due the statistics list uplinks {:?}; the file {} (links before: {:?})",
+                        listed.iter().map(|l| format!("127.0.0.{}", l + 2)).collect::<Vec<_>>(),
+                        if accepted { format!("lists {:?}", want_set.iter().map(|l| format!("127.0.0.{}", l + 2)).collect::<Vec<_>>()) } else { "must be refused".to_string() },
+                        before.iter().map(|l| format!("127.0.0.{}", l + 2)).collect::<Vec<_>>()
+                    ),
+                ));
+            }
+            for l in 0..n {
+                // a survivor: connected stays connected through the reload
+                if before.contains(&l) && want_set.contains(&l) {
+                    if let Some(st) = &row[l] {
+                        if self.links[l].connected_prev && !st.connected && now.saturating_sub(self.links[l].last_live_delivery) < timeout {
+                            return Err(Fail::new(
+                                "real:reload-disturbed-a-surviving-uplink",
+                                format!("uplink 127.0.0.{} is still listed, was connected before the reload and heard from {} ms ago, and is reported disconnected after it", l + 2, now - self.links[l].last_live_delivery),
+                            ));
+                        }
+                    }
+                }
+            }
+        }
+        // ---- a reload signalled since the last pass is applied by this one (after it updated the statistics)
+        let mut membership_changed = vec![false; n];
+        if let Some(want) = self.pending_reload.take() {
+            let before: Vec<usize> = (0..n).filter(|l| self.links[*l].present).collect();
+            let mut b: Vec<usize> = match &want {
+                Some(w) => {
+                    self.cov.reloads_applied += 1;
+                    w.clone()
+                }
+                None => {
+                    self.cov.reloads_refused += 1;
+                    before.clone()
+                }
+            };
+            b.sort_unstable();
+            b.dedup();
+            for l in 0..n {
+                let now_present = b.contains(&l);
+                if now_present && !self.links[l].present {
+                    let mode = self.links[l].mode;
+                    self.links[l] = fresh_link(now);
+                    self.links[l].mode = mode;
+                    self.links[l].present = true;
+                    membership_changed[l] = true;
+                } else if !now_present && self.links[l].present {
+                    self.links[l].present = false;
+                    self.links[l].src_port = None;
+                    self.rig.link_src.remove(&l);
+                    membership_changed[l] = true;
+                }
+            }
+            self.reload_to_verify = Some((want.is_some(), b, before));
+        }
         for l in 0..n {
+            if !self.links[l].present || membership_changed[l] {
+                continue;
+            }
             let Some(st) = &row[l] else {
                 return Err(Fail::new("real:link-missing-from-stats", format!("link {l} is not in the statistics snapshot at +{now} ms")));
             };
@@ -360,7 +491,7 @@ impl<'a> Run<'a> {
                     self.links[l].ka_misses += 1;
                     if self.links[l].ka_misses >= 2 {
                         return Err(Fail::new(
-                            "real:keepalive-gap-over-two-periods",
+                            if self.frozen.is_empty() { "real:keepalive-gap-over-two-periods" } else { "real:housekeeping-pass-stalled-with-a-frozen-subscriber" },
                             format!("link {l}: connected and not timed out over the last passes, yet two consecutive housekeeping passes (now +{now} ms) sent no keepalive"),
                         ));
                     }
@@ -417,7 +548,7 @@ impl<'a> Run<'a> {
     }
 
     async fn answer(&mut self, wire: &[(usize, Vec<u8>)]) -> Result<(), Fail> {
-        let n = self.m.n;
+        let n = MAX_ADDR;
         let mut replies: Vec<(usize, Vec<u8>)> = Vec::new();
         for (l, b) in wire {
             let l = *l;
@@ -453,6 +584,10 @@ impl<'a> Run<'a> {
                 _ => {}
             }
         }
+        if replies.is_empty() {
+            return Ok(());
+        }
+        replies.retain(|(l, _)| self.links[*l].present);
         if replies.is_empty() {
             return Ok(());
         }
@@ -501,7 +636,7 @@ impl<'a> Run<'a> {
 
     fn surely_usable(&self) -> bool {
         // a link that the last statistics reported connected and live, on a healthy path, registered at the receiver
-        self.links.iter().any(|k| k.live_prev && k.mode == Mode::Ok && k.rec_known && !k.bind_fail && self.now().saturating_sub(k.last_live_delivery) + 2000 < self.m.timeout)
+        self.pending_reload.is_none() && self.links.iter().any(|k| k.present && k.live_prev && k.mode == Mode::Ok && k.rec_known && !k.bind_fail && self.now().saturating_sub(k.last_live_delivery) + 2000 < self.m.timeout)
     }
 
     async fn client(&mut self, p: Vec<u8>) -> Result<(), Fail> {
@@ -554,7 +689,7 @@ impl<'a> Run<'a> {
 
     /// SRTLA ACK per datagram on the link it arrived on, one cumulative SRT ACK (relayed to the client).
     async fn acks(&mut self) -> Result<(), Fail> {
-        let n = self.m.n;
+        let n = MAX_ADDR;
         let mut per_link: Vec<Vec<u32>> = vec![Vec::new(); n];
         for (p, c) in &self.copies {
             if p.len() >= 4 && p[0] & 0x80 == 0 {
@@ -568,7 +703,7 @@ impl<'a> Run<'a> {
         }
         let mut top = 0;
         for l in 0..n {
-            if self.links[l].mode == Mode::BlackHole || !self.links[l].rec_known {
+            if self.links[l].mode == Mode::BlackHole || !self.links[l].rec_known || !self.links[l].present {
                 continue;
             }
             for q in per_link[l].clone() {
@@ -579,7 +714,7 @@ impl<'a> Run<'a> {
             }
         }
         if top > 0 {
-            if let Some(l) = (0..n).find(|l| self.links[*l].mode != Mode::BlackHole && self.links[*l].rec_known) {
+            if let Some(l) = (0..n).find(|l| self.links[*l].present && self.links[*l].mode != Mode::BlackHole && self.links[*l].rec_known) {
                 let mut p = vec![0u8; 44];
                 p[0] = 0x80;
                 p[1] = 0x02;
@@ -592,7 +727,7 @@ impl<'a> Run<'a> {
 
     /// A non-internal datagram from the receiver: must reach the client unchanged (once known).
     async fn relay(&mut self, l: usize, p: Vec<u8>) -> Result<(), Fail> {
-        if self.links[l].mode == Mode::BlackHole || self.links[l].src_port.is_none() {
+        if self.links[l].mode == Mode::BlackHole || self.links[l].src_port.is_none() || !self.links[l].present {
             return Ok(());
         }
         self.relay_expected.push(p.clone());
@@ -608,7 +743,7 @@ impl<'a> Run<'a> {
     }
 
     async fn event(&mut self, ev: Ev) -> Result<(), Fail> {
-        let n = self.m.n;
+        let n = MAX_ADDR;
         match ev {
             Ev::Sec => self.second(true).await,
             Ev::SecIdle => self.second(false).await,
@@ -662,6 +797,47 @@ impl<'a> Run<'a> {
                 self.check_forwarded()?;
                 self.acks().await
             }
+            Ev::Reload(text) => {
+                // what the file must produce: parsable lines in order, duplicates once; nothing parsable: refused
+                let mut want: Vec<usize> = Vec::new();
+                for line in text.lines() {
+                    if let Ok(std::net::IpAddr::V4(v)) = line.trim().parse::<std::net::IpAddr>() {
+                        let o = v.octets();
+                        if o[0] == 127 && o[3] >= 2 && ((o[3] - 2) as usize) < MAX_ADDR && !want.contains(&((o[3] - 2) as usize)) {
+                            want.push((o[3] - 2) as usize);
+                        }
+                    }
+                }
+                self.rig.write_ips(text).map_err(|e| Fail::new("MACHINERY", e))?;
+                unsafe { libc::raise(libc::SIGHUP) };
+                let mut o = StepOut::default();
+                self.rig.settle(&mut o).await.map_err(|e| Fail::new("MACHINERY", e))?;
+                self.absorb(&o, false)?;
+                // a later SIGHUP before the pass replaces an earlier one only if it is accepted
+                let verdict = if want.is_empty() { None } else { Some(want) };
+                match (&self.pending_reload, &verdict) {
+                    (Some(Some(_)), None) => {}
+                    _ => self.pending_reload = Some(verdict),
+                }
+                Ok(())
+            }
+            Ev::FrozenSubscriber(topic) => {
+                let (tx, rx) = tokio::sync::mpsc::channel::<String>(1);
+                let _id = self.rig.hub.subscribe(topic, tx).await;
+                self.frozen.push(rx);
+                self.cov.frozen_subscribers += 1;
+                Ok(())
+            }
+            Ev::PublishWindow => {
+                let hub = self.rig.hub.clone();
+                let k = self.cov.frozen_subscribers;
+                tokio::spawn(async move {
+                    hub.publish("priority.window", json!({"ms": 500, "n": k})).await;
+                });
+                let mut o = StepOut::default();
+                self.rig.settle(&mut o).await.map_err(|e| Fail::new("MACHINERY", e))?;
+                self.absorb(&o, false)
+            }
             Ev::ClientLen(len) => {
                 let t = self.now() + 1;
                 if t >= self.next_hk {
@@ -693,11 +869,11 @@ impl<'a> Run<'a> {
         for _ in 0..8 {
             let hk = self.next_hk;
             self.to(hk).await?;
-            if self.links.iter().all(|k| k.established) && self.passes >= 5 {
+            if self.links.iter().all(|k| !k.present || k.established) && self.passes >= 5 {
                 break;
             }
         }
-        if !self.links.iter().all(|k| k.established) {
+        if !self.links.iter().all(|k| !k.present || k.established) {
             return Err(Fail::new("MACHINERY", "start-up script: not every link registered within 8 s".into()));
         }
         Ok(())
@@ -713,6 +889,19 @@ pub struct RunResult {
 
 /// Execute one path on a fresh real loop.
 pub fn run_path(m: &LoopModel, path: &[usize]) -> RunResult {
+    // the sender binds its listener by port number; losing the race for a probed-free port to another
+    // process is not a result: try again with the next port
+    for _ in 0..5 {
+        let r = run_path_once(m, path);
+        match &r.fail {
+            Some((_, f)) if f.key == "MACHINERY" && f.msg.contains("bind local SRT UDP listener") => continue,
+            _ => return r,
+        }
+    }
+    run_path_once(m, path)
+}
+
+fn run_path_once(m: &LoopModel, path: &[usize]) -> RunResult {
     let mode = if m.classic { SchedulingMode::Classic } else { SchedulingMode::Enhanced };
     let cfg = DynamicConfig::from_cli(mode, false, false, 32, 3000, m.timeout);
     let binder = Arc::new(FaultBinder { fail: Default::default() });
@@ -723,26 +912,13 @@ pub fn run_path(m: &LoopModel, path: &[usize]) -> RunResult {
             rig,
             rec: FakeReceiver::default(),
             binder: b2,
-            links: vec![
-                LinkMon {
-                    mode: Mode::Ok,
-                    rec_known: false,
-                    src_port: None,
-                    last_live_delivery: 0,
-                    last_delivery: 0,
-                    last_socket_change: 0,
-                    socket_changes: 0,
-                    established: false,
-                    bind_fail: false,
-                    had_bind_fault: false,
-                    ok_since: Some(0),
-                    ka_misses: 0,
-                    live_prev: false,
-                    connected_prev: false,
-                    carried: Vec::new(),
-                };
-                m.n
-            ],
+            links: (0..MAX_ADDR)
+                .map(|l| {
+                    let mut k = fresh_link(0);
+                    k.present = l < m.n;
+                    k
+                })
+                .collect(),
             next_hk: 1000,
             dirty: false,
             next_seq: 1000,
@@ -754,6 +930,9 @@ pub fn run_path(m: &LoopModel, path: &[usize]) -> RunResult {
             relay_tag: 0,
             passes: 0,
             cov: Cov::default(),
+            pending_reload: None,
+            reload_to_verify: None,
+            frozen: Vec::new(),
         };
         let mut fail = None;
         if let Err(f) = run.establish().await {
@@ -843,7 +1022,7 @@ pub fn explore(rep: &mut Report, m: &LoopModel, plan: &RealPlan, keys: &[&str], 
     let t0 = Instant::now();
     let steps = AtomicU64::new(0);
     let skipped = AtomicU64::new(0);
-    let threads = crate::engine::Limits::default().threads;
+    let threads = if m.single_thread { 1 } else { crate::engine::Limits::default().threads };
     let outs = par_map(paths.len(), threads, |i| {
         if t0.elapsed() > wall {
             skipped.fetch_add(1, Ordering::Relaxed);
@@ -867,6 +1046,9 @@ pub fn explore(rep: &mut Report, m: &LoopModel, plan: &RealPlan, keys: &[&str], 
         cov.relayed += r.cov.relayed;
         cov.keepalives += r.cov.keepalives;
         cov.flaps += r.cov.flaps;
+        cov.reloads_applied += r.cov.reloads_applied;
+        cov.reloads_refused += r.cov.reloads_refused;
+        cov.frozen_subscribers += r.cov.frozen_subscribers;
         let Some((at, f)) = r.fail else { continue };
         if f.key == "MACHINERY" {
             if rep.machinery_errors.len() < 5 {
@@ -910,6 +1092,7 @@ pub fn explore(rep: &mut Report, m: &LoopModel, plan: &RealPlan, keys: &[&str], 
             "executions": ran, "not_run_wall_cap": sk, "settling_rounds": steps.load(Ordering::Relaxed), "distinct_end_observations": digests.len(),
             "socket_recreations": cov.socket_recreations, "rejoins": cov.rejoins, "client_datagrams_on_the_wire": cov.forwarded,
             "receiver_datagrams_relayed": cov.relayed, "keepalives": cov.keepalives, "flaps_gone_dark": cov.flaps,
+            "reloads_applied": cov.reloads_applied, "reloads_refused": cov.reloads_refused, "frozen_subscribers": cov.frozen_subscribers,
             "violations_of_other_properties_seen": other,
             "alphabet": (0..m.events.len()).map(|e| m.event_name(e)).collect::<Vec<_>>(),
         }),
@@ -959,6 +1142,8 @@ pub fn keys_of(prop: &str) -> &'static [&'static str] {
         ],
         "C09" => &["real:receiver-datagram-not-relayed", "real:client-received-unexpected-datagram"],
         "C14" => &["real:keepalive"],
+        "C19" => &["real:reload", "real:refused-reload", "real:datagram-from-unknown-source"],
+        "C20" => &["real:housekeeping-pass-stalled"],
         _ => &[],
     }
 }
@@ -986,6 +1171,14 @@ pub fn plans_of(prop: &str, quick: bool) -> Vec<(LoopModel, RealPlan)> {
                 v.push((LoopModel::new(2, 60000, false, 3), RealPlan::Dev { k: 1, depth: 100, default: 0 }));
             }
         }
+        "C19" => {
+            v.push((LoopModel::new(2, 5000, false, 4), RealPlan::Full { depth: if quick { 3 } else { 4 } }));
+            v.push((LoopModel::new(2, 5000, false, 4), RealPlan::Dev { k: if quick { 1 } else { 2 }, depth: if quick { 10 } else { 12 }, default: 0 }));
+        }
+        "C20" => {
+            v.push((LoopModel::new(2, 5000, false, 5), RealPlan::Full { depth: if quick { 3 } else { 4 } }));
+            v.push((LoopModel::new(2, 5000, false, 5), RealPlan::Dev { k: 2, depth: if quick { 8 } else { 16 }, default: 0 }));
+        }
         "C14" => {
             v.push((LoopModel::new(2, 5000, false, 1), RealPlan::Dev { k: 1, depth: 25, default: 1 }));
             v.push((LoopModel::new(2, 5000, false, 1), RealPlan::Dev { k: 2, depth: if quick { 10 } else { 24 }, default: 1 }));
@@ -1011,6 +1204,9 @@ pub fn run_for(rep: &mut Report, prop: &str, quick: bool) {
         total.relayed += c.relayed;
         total.keepalives += c.keepalives;
         total.flaps += c.flaps;
+        total.reloads_applied += c.reloads_applied;
+        total.reloads_refused += c.reloads_refused;
+        total.frozen_subscribers += c.frozen_subscribers;
     }
     // vacuity guards: the explored runs went through the situations the clauses talk about
     let need: &[(&str, u64)] = match prop {
@@ -1018,6 +1214,8 @@ pub fn run_for(rep: &mut Report, prop: &str, quick: bool) {
         "C08" => &[("socket re-creations", total.socket_recreations), ("rejoins", total.rejoins), ("flaps gone dark", total.flaps)],
         "C09" => &[("receiver datagrams relayed", total.relayed)],
         "C14" => &[("keepalives", total.keepalives)],
+        "C19" => &[("reloads applied", total.reloads_applied), ("reloads refused", total.reloads_refused)],
+        "C20" => &[("frozen subscribers", total.frozen_subscribers), ("keepalives", total.keepalives)],
         _ => &[],
     };
     for (what, n) in need {
